@@ -299,7 +299,7 @@ func opWrites(dirs map[string]string) (writes, calls, funcs []string) {
 					if id, ok := fx.X.(*ast.Ident); ok && taint[id.Name] == nil && (id.Obj == nil) {
 						fname = id.Name + "." + fx.Sel.Name // package-qualified call
 					}
-					if fname == "" || mutatingCallsIndex(fname) < 0 {
+					if fname == "" {
 						recvExpr = fx.X
 						fname = fx.Sel.Name
 					}
@@ -318,7 +318,16 @@ func opWrites(dirs map[string]string) (writes, calls, funcs []string) {
 				if i := strings.LastIndex(short, "."); i >= 0 {
 					short = short[i+1:]
 				}
+				qual := ""
+				if recvExpr == nil {
+					if i := strings.LastIndex(fname, "."); i >= 0 {
+						qual = fname[:i] // a package-qualified call: only a function of that analysed package can be meant
+					}
+				}
 				for _, callee := range byShort[short] {
+					if qual != "" && !(strings.HasPrefix(callee.name, qual+".") && strings.Count(callee.name, ".") == 1) {
+						continue
+					}
 					hasRecv := callee.roots[0] != "" || strings.Count(callee.name, ".") == 2
 					if (recvExpr != nil) != hasRecv {
 						// a package-qualified function (sbom.NewNode) or a method: receivers must match up
